@@ -130,10 +130,16 @@ def basic_project(rng, cid, tier, classes=None, stats=None, n_stages=None, allow
         sp = (b"stage%d.yaml" % s) if rng.random() < 0.6 else (b"stages/s%d.yaml" % s)
         stages.append((sp, dict(cmd=b"", wd=b".", out=outs, **({"in": ins} if ins else {}))))
     case = dict(id=cid, init=init, stages=stages, ops=[])
-    case["cache"] = rng.choice(["rel", "rel", "abs", "shm"])
+    case["cache"] = rng.choice(["rel", "rel", "abs", "shm", "sym"])     # sym: .dud/cache is a symbolic link to a directory elsewhere
     if rng.random() < 0.25:
         case["oddpath"] = True          # ':' and blanks in the absolute path of the project / the cache
-    if rng.random() < 0.3:
+    if rng.random() < 0.15:
+        # dud is invoked from the project root reached through a symbolic link above it. (Not combined with a sub-directory
+        # invocation: there dud mixes the logical $PWD with the physical getcwd() after its chdir to the root, and the links
+        # it creates run through the physical path of the project — legitimate, but they dangle once the project is moved,
+        # which the model's location-free links cannot express.)
+        case["via_symlink"] = True
+    elif rng.random() < 0.3:
         case["cwd"] = b"workdir/inner"
         case["init"].append(("dir", b"workdir"))
         case["init"].append(("dir", b"workdir/inner"))
@@ -157,7 +163,9 @@ def gen_history(rng, case, nops, allow=("commit", "checkout", "status", "push", 
         for p, fl in st.get("out", []):
             arts.append((p, fl))
     files = [e for e in case["init"] if e[0] == "file"]
+    cur_spec = {e[1]: e[2] for e in files}          # path -> content spec as last written
     dirs = [p for p, fl in arts if "d" in fl]
+    allow = tuple(allow) + (("append", "damage") if "edit" in allow and "checkout" in allow else ())
     committed = False
     pushed = False
     present = True          # every cached artifact is in the workspace
@@ -203,8 +211,40 @@ def gen_history(rng, case, nops, allow=("commit", "checkout", "status", "push", 
             if not present and not w:
                 continue
             e = rng.choice(files)
-            ops.append(("write", e[1], "g:%d:%d" % (rng.randrange(1000), rng.choice(SIZES_Q))))
+            spec = "g:%d:%d" % (rng.randrange(1000), rng.choice(SIZES_Q))
+            ops.append(("write", e[1], spec))
+            cur_spec[e[1]] = spec
             dirty = True
+        elif k == "append" and files:
+            # a file is extended IN PLACE (same inode), as `>>` or an editor would: legitimate for a regular file, e.g. after a
+            # copy commit / copy checkout (the harness replaces the entry instead when it is a link)
+            if not present and not w:
+                continue
+            cand = [f for f in files if cur_spec.get(f[1], "").startswith("g:")]
+            if not cand:
+                continue
+            e = rng.choice(cand)
+            sd, n_ = cur_spec[e[1]].split(":")[1:]
+            spec = "g:%s:%d" % (sd, int(n_) + rng.choice([1, 5, 4096]))
+            if not (ops and ops[-1][0] in ("commit", "checkout") and ops[-1][1] == "c") and rng.random() < 0.6:
+                ops.append(("commit", "c", []))          # make it a regular file that shares nothing with the cache, supposedly
+                committed = True
+                info["commits"] += 1
+            ops.append(("append", e[1], spec))
+            cur_spec[e[1]] = spec
+            dirty = True
+        elif k == "damage":
+            # the object of a tracked file is damaged in the cache, then dud is asked for a verified copy of it: must fail and
+            # leave the cache as it is
+            if not committed or dirty or not files:
+                continue
+            e = rng.choice(files)
+            if not any(e[1] == p or e[1].startswith(p + b"/") for p, fl in arts if "s" not in fl):
+                continue
+            ops += [("corrupt", "p" + e[1].hex(), "g:%d:%d" % (rng.randrange(1000), rng.choice([0, 3, 70000]))), ("rm", e[1]),
+                    ("checkout", "c", False, []), ("status", [])]
+            present = False
+            break
         elif k == "add" and dirs:
             if not present and not w:
                 continue
@@ -320,7 +360,9 @@ def pipeline_project(rng, cid, n, cyclic=False, tier="quick", all_edges=None, si
         stages.append((b"st%d.yaml" % n, st))
         edges = edges + [(j, n) for j in src]
         kinds = kinds + ["sink"]
-    case = dict(id=cid, init=init, stages=stages, ops=[], cache=rng.choice(["rel", "rel", "abs"]))
+    case = dict(id=cid, init=init, stages=stages, ops=[], cache=rng.choice(["rel", "rel", "abs", "sym"]))
+    if rng.random() < 0.12:
+        case["via_symlink"] = True
     case["edges"] = edges
     case["kinds"] = kinds
     case["nested"] = nested_used
